@@ -117,9 +117,11 @@ def roundtrip_cases(ctx):
     # path (attrs are stored \\u-escaped: 6 ASCII characters per character; bytes values are over-estimated by their repr)
     for path, sizes in (("attrs", (1000, 160000, 200000, 400000)), ("custom_metadata_str", (1000, 100000, 160000)),
                         ("custom_metadata_bytes", (1000, 200000, 400000)), ("column_name", (100, 5000, 20000)),
-                        ("cat_labels", (100, 5000)), ("string_values", (100, 5000))):
+                        ("cat_labels", (100, 5000, 200000)), ("string_values", (100, 5000, 200000))):
         for chars in (sizes if not ctx.quick() else sizes[-2:]):
             cases.append({"fn": "nonascii_text", "path": path, "chars": chars, "stream": "main"})
+    # pinned defect (open finding, .pyx): a column name whose UTF-8 form alone exceeds the serialiser's fixed estimate
+    cases.append({"fn": "nonascii_text", "path": "column_name", "chars": 100000, "stream": "confirm"})
     cases.append({"fn": "thrift_numpy_int", "stream": "confirm"})
     cases.append({"fn": "kv_nonascii_big", "n": 400000, "stream": "confirm"})
     return cases
@@ -131,6 +133,7 @@ def roundtrip_collect(cases, scratch, quick):
     conf_cases = [c for c in cases if c["stream"] == "confirm"]
     mt_cases = [c for c in main_cases if c["fn"] == "mt_read"]
     fc_cases = [c for c in main_cases if c["fn"] in ("foreign_chunk", "nonascii_text")]
+    conf_cases = sorted(conf_cases, key=lambda c: c["fn"])
     main_cases = [c for c in main_cases if c["fn"] not in ("mt_read", "foreign_chunk", "nonascii_text")]
     real = L.run_real(main_cases, os.path.join(scratch, "rt"), sanitize=True, nproc=4 if quick else 8,
                       max_crashes=10, worker=worker, chunk=30, timeout=600)
